@@ -1,5 +1,5 @@
 (* regenerated on every run by harness/cmd/translate (envfsm) from
-   core/environment/environment.go, transition*.go, core/server.go *)
+   core/environment/environment.go, manager.go, transition*.go, core/server.go *)
 From Verif Require Import Common EnvFsmTypes.
 Open Scope N_scope.
 
@@ -38,3 +38,7 @@ Definition env_forced_nonliteral_sites : N := 0.
 
 (* RpcServer.DestroyEnvironment *)
 Definition env_states_for_destroy : list estate := [sCONFIGURED; sDEPLOYED; sSTANDBY].
+
+(* reads of the FSM state (CurrentState / Sm.Current / Sm.Is / Sm.Can) that precede the first
+   transitionMutex.Lock / TryLock in TryTransition, ForceError and TeardownEnvironment *)
+Definition env_prelock_state_reads : N := 0.
